@@ -21,6 +21,7 @@ import (
 	"net/url"
 	"strconv"
 	"strings"
+	"time"
 )
 
 func defaultPort(scheme string) string {
@@ -52,8 +53,9 @@ func sameOrigin(a, b *url.URL) bool {
 // SetAgeHeader sets the Age header in the response based on the Age value.
 // It assumes a non-nil Age pointer is provided.
 func SetAgeHeader(resp *http.Response, clock Clock, age *Age) {
-	adjusted := max(age.Value+clock.Since(age.Timestamp), 0)
-	resp.Header.Set("Age", strconv.Itoa(int(adjusted.Seconds())))
+	// Saturating: an already saturated age must not wrap around to zero.
+	adjusted := addDuration(max(age.Value, 0), max(clock.Since(age.Timestamp), 0))
+	resp.Header.Set("Age", strconv.Itoa(int(adjusted/time.Second)))
 }
 
 // hopByHopHeaders returns a map of hop-by-hop headers that should be removed
